@@ -340,7 +340,7 @@ def shards(tier):
 
 
 def run_shard(spec, ctx):
-    n = ctx.pick(500, 9000)
+    n = ctx.pick(500, 40000)
     return core.hyp_shard(cases(ctx.pick(3, 4)), check_case, ctx, n)
 
 
